@@ -92,7 +92,18 @@ def install_tracing():
                 tr.uid = f"{call}.{kind}.{i}"
                 tagged.append(tr)
             setattr(self, name, tagged)
-            _event({"kind": "predraw", "rows": kind, "call": call, "n": len(tagged)})
+            dup, example = 0, None
+            if kind == "brownian":
+                # rows of continuous variates: two rows with the same content were not drawn independently
+                seen = {}
+                for i, row in enumerate(tagged):
+                    key = np.asarray(row, dtype=float).tobytes()
+                    if key in seen:
+                        dup += 1
+                        example = example or [seen[key], i]
+                    else:
+                        seen[key] = i
+            _event({"kind": "predraw", "rows": kind, "call": call, "n": len(tagged), "duplicate_rows": dup, "example": example})
 
     SimulationFixedTimes.pre_computation = pre_computation
     SimulationFixedTimes._rv_traced = True
